@@ -321,8 +321,17 @@ fn lexeme_ok(t: &Token, slice: &str, kws: &[Kind]) -> Result<(), String> {
     }
 }
 
-fn len16(s: &str) -> u32 {
-    s.chars().map(|c| c.len_utf16() as u32).sum()
+/// Position of the end of a slice that starts at 0:0 (the slicer joins lines with LF).
+fn end_of(s: &str) -> Position {
+    let mut p = Position::new(0, 0);
+    for c in s.chars() {
+        if c == '\n' {
+            p = Position::new(p.line + 1, 0);
+        } else {
+            p = Position::new(p.line, p.character + c.len_utf16() as u32);
+        }
+    }
+    p
 }
 
 /// The oracle proper.  `text` is the raw input as characters (for `L` cases: one char per byte).
@@ -382,7 +391,7 @@ fn oracle(symbols: &Symbols, kws: &[Kind], text: &[char], lx: &Lexed) -> String 
             );
         }
         let rr = rt.pos.range;
-        if rr.start != Position::new(0, 0) || rr.end != Position::new(0, len16(&slice)) {
+        if rr.start != Position::new(0, 0) || rr.end != end_of(&slice) {
             return format!("BAD:token {} re-lexed token does not span the slice {:?}: {}", i, slice, fmt_range(&rr));
         }
     }
@@ -723,7 +732,8 @@ fn main() {
             frontier = next;
         }
     } else if mode == "random" {
-        let mut rng = Rng::new(seed);
+        // fork: the streams of Rng::new(s) and Rng::new(s+1) are shifted copies of each other
+        let mut rng = Rng::new(seed).fork();
         for _ in 0..n {
             let c = gen_random(&mut rng, &kwnames);
             emit(c);
